@@ -669,6 +669,11 @@ class Ledger(LedgerBase):
         self.r = r
         ug = r.users_guard()
         self.UG = ug[0] if ug else None
+        # a closure-carrying guard type (DropGuard<F>) may be instantiated for other purposes too (a diagnostic gauge): the
+        # users guard is the instantiation constructed at the bound site (the closure type is part of the local's type)
+        self.UG_TY = None
+        if ug and ug[3][0] == 'closure' and ug[2].place.is_local():
+            self.UG_TY = r.TIMEOUT_GET.locals[ug[2].place.local]['ty']
         self.ret_helper = {h.path for h in r.RETURN if h.path != r.OBJ_DROP.path}
         self.take_helper = {h.path for h in r.TAKE if h.path != r.OBJ_TAKE.path}
         self.helper_paths = self.ret_helper | self.take_helper
@@ -684,7 +689,7 @@ class Ledger(LedgerBase):
         if a == self.r.UNREADY:
             return 'wrapper'
         if self.UG and a == self.UG:
-            return 'uguard'
+            return 'uguard' if self.UG_TY is None or ty == self.UG_TY else None
         if a == self.r.OBJINNER:
             return 'bare'
         if a == 'std::option::Option' and ty.startswith('std::option::Option<') and adt_of(ty[len('std::option::Option<'):-1]) == self.r.OBJINNER:
@@ -721,7 +726,7 @@ class Ledger(LedgerBase):
                 return (1, 0, -1), 'Object built'
             if adt == r.OBJINNER:
                 return (0, -1, 0), 'object created'
-            if self.UG and adt == self.UG:
+            if self.UG and adt == self.UG and (self.UG_TY is None or (s.place.is_local() and b.locals[s.place.local]['ty'] == self.UG_TY)):
                 return (0, 0, -1), 'users guard armed'
         lf_ = s.place.last_field() if s.place.proj else None
         if lf_ == (r.SLOTS, r.SIZE) and s.place.proj[-1] == '.' + r.SIZE:
@@ -771,7 +776,7 @@ class Ledger(LedgerBase):
     def switch_event(self, b, an, bc, blk, t, lab, on, tr, fl=()):
         if on is not None and not on['pr'] and on['l'] in bc.upgrade_dest and lab == 'None':
             return None, 'pool gone', ('dead',)          # the pool is gone: there are no books to keep
-        if (t.j.get('dty') == 'bool' or t.j.get('variants')) and b.path in self.helper_paths and not bc.skip_e1:
+        if b.path in self.helper_paths and not bc.skip_e1:
             rel = cmp_relation(an, self.r, blk, lab)
             if rel and rel[0] in ('size>max', 'size>=max') and 'surplus' not in fl:
                 # surplus: shrink debt paid - once per path, however many switches encode the same decision
